@@ -31,7 +31,14 @@ OWNED = {
 
 # =============================================================== generation
 
-def _dur_choices(dyadic, rng):
+def _dur_choices(dyadic, rng, odd=False):
+    if odd and rng.random() < 0.3:
+        # legal but unusual: a negative duration (the state still runs once; its successor's clock starts at
+        # s+d, before s) and NaN (never expires)
+        r = rng.random()
+        if r < 0.6:
+            return -rng.choice([1, 8, 32]) / 64.0 if dyadic else -rng.choice([0.01, 0.25, 1.5])
+        return float("nan")
     if dyadic:
         return rng.choice([0, 1, 1, 2, 2, 3, 4, 4, 8, 8, 16, 32, 64, 96, 128]) / 64.0
     return rng.choice([0.0, 0.01, 0.02, 0.05, 0.1, 0.25, 0.3, 0.5, 0.7, 1.0, 1.5, 2.0, round(rng.uniform(0, 3), 3)])
@@ -41,6 +48,7 @@ def gen_config(rng, prop, tier="quick"):
     asm = prop == "C13"
     dyadic = rng.random() < 0.55
     n = rng.choice([1, 2, 2, 3, 3, 3, 4, 4, 5, 6] if tier != "thorough" else [1, 2, 2, 3, 3, 4, 4, 5, 6, 7, 8])
+    odd = rng.random() < 0.15
     p_timed = {"C02": 0.8, "C13": 0.65}.get(prop, 0.5)
     names = [f"s{i}" for i in range(n)]
     states = []
@@ -48,8 +56,8 @@ def gen_config(rng, prop, tier="quick"):
         kind = "timed" if rng.random() < p_timed else "plain"
         st = {"name": nm, "kind": kind, "must_finish": rng.random() < 0.25}
         if kind == "timed":
-            d = _dur_choices(dyadic, rng)
-            if d == int(d) and rng.random() < 0.3:
+            d = _dur_choices(dyadic, rng, odd)
+            if d == d and d == int(d) and rng.random() < 0.3:
                 d = int(d)          # integer literal -> integer topic
             st["duration"] = d
             r = rng.random()
@@ -103,11 +111,27 @@ def gen_config(rng, prop, tier="quick"):
         "layout": layout,
         "verbose": rng.random() < 0.25,               # VERBOSE_LOGGING on (the machine logs through self.logger)
         "base_first": len(classes) > 1 and rng.random() < 0.4,   # an object of the base class is created before the leaf's
+        "odd_durations": odd,
     }
     for st in states:
         if st["kind"] == "timed" and rng.random() < 0.12:
-            v = _dur_choices(dyadic, rng)
+            v = _dur_choices(dyadic, rng, odd)
+            if isinstance(st["duration"], int) and v != v:
+                v = 1
             cfg["pre_nt"][st["name"]] = int(v) if isinstance(st["duration"], int) else float(v)
+    # positional-only parameters (def s(self, tm, /, state_tm)): the decorators accept them
+    for st in states:
+        if rng.random() < 0.12:
+            st["posonly"] = rng.randint(0, len(st["sig"]))
+    # the base class has its own first state, which the leaf redefines as an ordinary one (the leaf's first state
+    # is another): what the base class looks like must not leak into the leaf
+    if len(classes) > 1 and rng.random() < 0.35:
+        low = "Root" if layout == "diamond" else "Base"
+        fst = next(x for x in states if x["name"] == first)
+        if low not in fst["defined_in"]:
+            cands = [x["name"] for x in states if x["kind"] != "default" and x["defined_in"][0] == low and len(x["defined_in"]) == 2]
+            if cands:
+                cfg["first_in_base"] = rng.choice(cands)
     return cfg
 
 
@@ -191,6 +215,8 @@ def _pick_dt(rng, cfg, style, model, now_us):
             return int(delta)
     r = rng.random()
     if r < style["p_pause"]:
+        if style.get("days") and rng.random() < 0.3:
+            return (2 ** 24 * GRID_US) if dy else rng.choice([3 * 86400 * 10**6, 30 * 86400 * 10**6 + 7])
         return (rng.choice([64, 128, 200, 640]) * GRID_US) if dy else rng.choice([700000, 2500000, 10**7])
     if r < style["p_pause"] + style["p_zero"]:
         return 0
@@ -230,6 +256,7 @@ def generate(seed, prop, tier, index=0):
         "p_force": rng.choice([0.0, 0.0, 0.05, 0.2]),
         "p_raise": rng.choice([0.0, 0.0, 0.0, 0.03, 0.1]),
         "p_seq": rng.choice([0.0, 0.0, 0.0, 0.05, 0.2]),
+        "days": rng.random() < 0.15,      # some pauses last days: machine time far from zero
     }
     if prop == "C02":
         style["p_engage"] = rng.choice([1.0, 1.0, 1.0, 0.9])
@@ -350,7 +377,9 @@ def _sanitize_asm(ops):
 
 def _gen_ntdur(rng, cfg, timed):
     st = rng.choice(timed)
-    v = _dur_choices(cfg["dyadic"], rng)
+    v = _dur_choices(cfg["dyadic"], rng, cfg.get("odd_durations"))
+    if isinstance(st["duration"], int) and v != v:
+        v = 2
     return ["ntdur", st["name"], int(v) if isinstance(st["duration"], int) else float(v)]
 
 
@@ -419,7 +448,7 @@ def build_source(cfg):
             nm = st["name"]
             live = c == st["cls"]
             sig = st["sig"] if live else st["base_sig"]
-            is_first = nm == cfg["first"]
+            is_first = nm == cfg["first"] or (not live and nm == cfg.get("first_in_base"))
             if not live and st.get("base_over"):
                 st = dict(st, must_finish=st["base_over"]["must_finish"], next=st["base_over"]["next"])
             if st["kind"] == "timed":
@@ -430,7 +459,8 @@ def build_source(cfg):
                     nx = nxt
                 else:
                     nx = repr(nxt)
-                deco = f"@timed_state(duration={st['duration']!r}, next_state={nx}, first={is_first}, must_finish={bool(st['must_finish'])})"
+                dlit = repr(st["duration"]) if st["duration"] == st["duration"] else "float('nan')"
+                deco = f"@timed_state(duration={dlit}, next_state={nx}, first={is_first}, must_finish={bool(st['must_finish'])})"
             elif st["kind"] == "default":
                 deco = "@default_state"
             else:
@@ -438,7 +468,10 @@ def build_source(cfg):
                     deco = "@state"
                 else:
                     deco = f"@state(first={is_first}, must_finish={bool(st['must_finish'])})"
-            args = ", ".join(["self"] + sig)
+            params = ["self"] + list(sig)
+            if live and st.get("posonly") is not None:
+                params.insert(1 + min(st["posonly"], len(sig)), "/")
+            args = ", ".join(params)
             d = "{" + ", ".join(f"{a!r}: {a}" for a in sig) + "}"
             lines.append(f"    {deco}")
             lines.append(f"    def {nm}({args}):")
@@ -803,6 +836,8 @@ def _probes(probe, fault, k, op, mev, model, pre_abs, pre_running):
     elif k == "adv":
         if op[1] >= 600000:
             fault("long_pause")
+        if op[1] >= 86400 * 10**6:
+            fault("pause_of_days")
         if op[1] == 0:
             fault("zero_advance")
     if k == "enable" and not pre_abs[2]:
